@@ -13,6 +13,7 @@ PROPS = {
         pairs={},
         native={'leaf_insert_at': ['c26_multimap_quick'], 'delete_from_leaf': ['c26_multimap_quick'], 'leaf_lower_bound': ['c26_multimap_quick'],
                 'internal_child_for_key': ['c26_multimap_quick'], 'leaf_cell_key_and_payload': ['c26_multimap_quick']},
+        native_thorough=['c26_multimap_thorough'],
         native_all=['c26_multimap_quick'],
         level_text='Proof, single-page scope, for any cell count, key length and page content satisfying the page invariant: Verus proves from the real bodies of the slotted index page (byte helpers, varint_u32_len, write_varint_u32, Page::{new, kind, init_leaf, cell_count, cell_content_begin, slots_off, slot_get, slot_set, free_space, set_cell_content_begin, set_cell_count, set_right_sibling, right_sibling, leftmost_child, shift_slots_right, shift_slots_left, leaf_cell_key_and_payload, internal_cell_key_and_right_child, leaf_lower_bound, internal_child_for_key, leaf_insert_at, internal_insert_at, delete_from_leaf}, and BTree::delete over an abstract page store) that a leaf read through the accessors is the abstract sequence of (key, payload) entries; that leaf_lower_bound returns the first position whose key is >= the target and internal_child_for_key the child in front of the first separator >= the target (so a run of equal keys is entered where it starts); that leaf_insert_at inserts exactly the given entry at the given position of the whole abstract sequence, keeps the page invariant, succeeds exactly when the cell and its slot fit, and otherwise leaves the page bytes unchanged; that delete_from_leaf removes exactly the entry at the given position; that internal_insert_at inserts exactly the given separator and child; that BTree::delete, on any page store whose index pages satisfy the page invariant (and whose leaf sibling links point at leaves), changes nothing when it returns false, and when it returns true changed exactly one leaf page by removing exactly one entry equal to the given (key, payload), touching at most one page even on error; and, as lemmas over those contracts, that inserting at the lower-bound position keeps keys in order with the new entry in front of all equal keys (a lookup returns the most recently inserted payload) and that removal keeps order. Kani proves on the compiled crate that the varint reader inverts the writer for every u32, never reads past five bytes and depends only on the bytes it consumed.',
         level_note="Not decided: the rest of what spans pages - leaf and internal splits, separator choice, insert_into_parent, build_from_sorted_entries, BTreeCursor, rebuild_leaf/rebuild_internal (iterator adapters), and that BTree::delete FINDS every stored pair (needs the cross-page ordering invariant; termination of its walks is not proved either); these are inline with pager I/O in BTree::{insert, delete, cursor_lower_bound} and are outside both verifiers' reach (measured). They are exercised only by the native witness generator c26_multimap_* (random insert/delete/lookup sequences over small key alphabets against a reference multimap: 3 seeds x 400 steps quick, 40 x 1500 thorough), which is a bounded search, not a proof, and is run when a unit is undecided or an obligation fails. The page invariant (leaf_wf / internal_wf, keys in order) is a precondition: nothing is claimed about corrupt pages. Trusted: std slice comparison is lexicographic (v_bytes_lt/le), copy_within/copy_from_slice/fill/sub-slice wrappers, read_varint_u32 characterised by three axioms (each discharged by a Kani harness), to/from_le_bytes.",
@@ -47,6 +48,7 @@ PROPS = {
                 'try_read_u32': ['c17_tail_garbage', 'c17_commit_after_tail_shapes', 'c17_truncate_every_byte'],
                 'append': ['c17_commit_after_tail', 'c17_commit_after_tail_shapes', 'c17_truncate_every_byte'],
                 'replay_committed_from_path': ['c17_aborted_then_commit', 'c17_truncate_every_byte', 'c17_tail_garbage', 'c17_commit_after_tail_shapes']},
+        native_thorough=['c17_commit_after_tail_shapes', 'c17_aborted_then_commit', 'c17_truncate_every_byte'],
         native_all=['c17_tail_big_len', 'c17_tail_zero_fill', 'c17_tail_garbage', 'c17_commit_after_tail_shapes', 'c17_aborted_then_commit', 'c17_truncate_every_byte'],
         level_text='Proof for every log length and every tail, over a trusted file model: Verus proves the real WalReader::{try_read_u32,next_record} return a record exactly when a complete (length-limited, checksummed, decodable) frame starts at the read position and otherwise end the log without error; proves Wal::replay_committed_from_path returns exactly the committed-transaction fold of the records of the valid run; proves Wal::append places the new record right after the last complete record whatever tail the file had (so it is the next record every later reader sees) and never damages earlier records even when it fails; and proves the log-level lemmas: any bytes that do not start a complete frame after a run of frames leave the records unchanged, pure truncation inside a frame drops exactly that frame, committed transactions of a prefix are a prefix of the committed transactions.',
         level_note='Trusted: file model (File = bytes + position; read_exact/write_all/set_len/seek/metadata as specified in _file_model.rs/_file_ops.rs; fsync, rename and directory durability are not modelled), crc32 as an uninterpreted function, decode_body as a deterministic function whose agreement with the format is proved in unit c25_wal, single writer per file (C10 assumed). Not decided: GraphEngine::open/commit orchestration (how replayed transactions are applied to the page store), Wal::rewrite_as_snapshot. Verus gives no counterexample and Kani cannot ingest file I/O: on a failed obligation the driver runs native witness classes (replay-runner: every truncation point, zero fill, oversized length, garbage, commit-after-tail) against the tree under test and attaches the first that reproduces.',
@@ -61,6 +63,7 @@ PROPS = {
         native={'apply_create_node_multi_label': ['c18_node_table_spill'], 'write_i2e_record': ['c18_node_table_spill'],
                 'make_room_for_next_record': ['c18_node_table_spill'], 'write_direct': ['c18_ownership_mix_quick'],
                 'allocate_page': ['c18_ownership_mix_quick'], 'free_page': ['c18_ownership_mix_quick'], 'write_blob_pages': ['c18_ownership_mix_quick']},
+        native_thorough=['c18_node_table_spill', 'c18_ownership_mix_thorough'],
         native_all=['c18_node_table_spill', 'c18_ownership_mix_quick'],
         level_text='Proof of a frame condition, for every page id, every bitmap state and every node id, over a trusted positional-file model: Verus proves from the real bodies that the allocator (Bitmap::{get_bit,set_bit}, Pager::{allocate_page, allocate_run, ensure_allocated, free_page, write_page, read_page, flush_meta_and_bitmap, set_*}) keeps its representation invariant, hands out only pages that were free, frees exactly the page asked for, and changes no byte of any other allocated data page; and that the structures checked against those contracts (write_blob_pages of the segment store, BlobStore::write_direct (property values, statistics, HNSW payloads), BTree::create, IndexCatalog::{open_or_create, get_or_create, flush}, the node table: i2e_location, write_i2e_record, IdMap::make_room_for_next_record incl. the relocation loops, IdMap::apply_create_node_multi_label) change no byte of any page that was allocated before the call and is not their own (frame_ok). Kani proves the bit-level laws of the bitmap, the meta-page round trip and node-table addressing (all u64 ids, no overlap) on the compiled crate.',
         level_note="Not decided: the write loops of B-tree splits (BTree::insert / insert_into_parent / build_from_sorted_entries), IndexCatalog::update_root, BlobStore::delete, HNSW stores, statistics and compaction orchestration: they obey the discipline only in so far as every page they obtain comes from Pager::allocate_page, whose contract is proved. Bitmap::find_free_in_range is `(start..end).find(closure)`, which Verus cannot ingest: its contract is assumed in the Verus unit on the strength of std's Iterator::find semantics and is checked by Kani on the compiled code only for windows of <= 8 (quick) / <= 16 (thorough) ids near id 0 (labelled bounded, not counted). Trusted: positional file model (pread/pwrite loops of pager.rs as v_read_exact_at / v_write_all_at; set_len extends with zeros; fsync not modelled), `&File` writes modelled as `&mut File` (interior mutability of the OS file), 64-bit usize, IdMap invariant `no start page => no records` (established by load on a consistent meta page, preserved by the proved function). Verus gives no counterexample; on a failed obligation, or when the unit can no longer be assembled from the tree, the driver runs the native scenarios c18_node_table_spill and c18_ownership_mix_quick (random interleavings of blob writes/deletes, B-tree inserts and node creations through the Pager/IdMap/BlobStore/BTree public API, each structure read back after every step) against the tree under test. BlobStore::write_direct iterates `chunks(..).collect()` reversed through one trusted wrapper (v_chunks_rev); its Kani chain-structure harness covers blobs of at most one page only (larger ones crash CBMC, measured).",
@@ -74,6 +77,7 @@ PROPS = {
         native={'mark_csr_segment_pages': ['c28_vacuum_after_compact'], 'encode_meta': ['c28_vacuum_after_compact'],
                 'mark_reachable_pages': ['c28_vacuum_after_compact'], 'mark_blob_chain': ['c28_vacuum_after_compact'],
                 'read_direct': ['c28_vacuum_after_compact'], 'write_vacuum_copy': ['c28_vacuum_after_compact']},
+        native_thorough=['c28_vacuum_after_compact'],
         native_all=['c28_vacuum_after_compact'],
         level_text='Proof, reachability scope, for every list length and every chain length, over the page-store view of unit c18_pager: Verus proves from the real bodies that csr::encode_meta writes exactly the segment-meta format spec (magic, ids, lengths, four page counts at 64..80, four page lists from 80), that vacuum::mark_csr_segment_pages on any page holding that format marks every non-zero page id of all four lists and fails only on I/O or an invalid layout, and - as a lemma over the two contracts - that the marker covers everything the writer recorded; that vacuum::mark_blob_chain marks every page of a blob chain up to its terminator and BlobStore::read_direct returns a function of exactly those pages, with a lemma that a copy agreeing on those pages yields the same chain and bytes; that Pager::write_vacuum_copy produces a page store of exactly next_page_id pages whose bitmap marks the two header pages and exactly the reachable data pages, whose next_page_id lies above every reachable page and in which every reachable data page holds the bytes it held in the source (copy_ok); that vacuum::scan_wal_roots and engine::scan_recovery_state both equal one spec fold over the committed operations (unit c28_roots), so vacuum keeps the pages of exactly the manifest and roots that open loads; and that vacuum::mark_reachable_pages keeps the two header pages, every page of the node table (page of record id for all id < len), the catalog page, the statistics chain and, for every segment of the manifest, its meta page and all four page lists.',
         level_note='Not decided: B-tree page marking (BTree::mark_reachable_pages over index, HNSW and property trees - stands in mark_reachable_pages as two stubs that only say the set never shrinks), the meta page image written by the copy (Meta::encode_page is a stub here; its round trip is Kani harness c18_meta_roundtrip), the rename dance of vacuum_in_place and post-vacuum usability; those are exercised only by the native scenario c28_vacuum_after_compact, which is a witness generator, not a proof. Termination of the two chain walks is not proved (cycles are detected at run time by the marker, not by the reader). Trusted: Pager::read_page contract (proved in unit c18_pager), iterating a BTreeSet visits exactly its elements (v_set_elems: this vstd has no comparison model for a user key type), std::io::Cursor<&mut [u8]>::write_all as a sequential writer, BTreeSet insert, u64::div_ceil, page lists shorter than 2^28 entries (keeps `needed` from overflowing). A `continue` in the segment loop is rewritten mechanically into a guarded block (Verus for-loops do not support continue).',
